@@ -180,7 +180,7 @@ def judge(case):
 def space(tier, seed):
     q = tier == "quick"
     alph = {
-        "mixture": ["H2O_EtOH", "MeOH_DMC", "S2", "S4"] if q else list(U.ALL_MIXTURES),
+        "mixture": ["H2O_EtOH", "MeOH_DMC", "S2", "S5"] if q else list(U.ALL_MIXTURES),
         "model": ["NRTL", "UNIQUAC"],
         "mode": ["vac", ("T", 120.0), ("T", -60.0), ("T", -20.0), ("p", 0.0), ("p", 0.5), ("p", 5.0)] +
                 ([] if q else [("T", -5.0), ("T", 0.0), ("p", 100.0)]),
